@@ -80,7 +80,10 @@ def hot(
             nonlocal is_stopped
 
             with lock:
-                for observer in observers:
+                # iterate over a snapshot: an observer unsubscribes itself from
+                # within its callback (e.g. on a terminal notification), and
+                # removing from the list being iterated would skip the next one
+                for observer in observers[:]:
                     notification.accept(observer)
 
                 if notification.kind in ("C", "E"):
